@@ -32,6 +32,14 @@ func (r *Runner) apiFacts(tx *bbolt.Tx, model project.Facts) project.Facts {
 		sort.Strings(out)
 		return strings.Join(out, ",")
 	}
+	listT := func(xs []string) string { // ids of teams
+		out := make([]string, 0, len(xs))
+		for _, x := range xs {
+			out = append(out, tok.ModelT(x))
+		}
+		sort.Strings(out)
+		return strings.Join(out, ",")
+	}
 	var pids, tids []string
 	for c := S.People.IterateIds(tx, ast.BoolNodeTrue); c.IsValid(); c.Next() {
 		pids = append(pids, string(c.Current()))
@@ -49,7 +57,11 @@ func (r *Runner) apiFacts(tx *bbolt.Tx, model project.Facts) project.Facts {
 		f["ent/"+id+"/name"] = tok.Model(p.Name)
 		f["ent/"+id+"/nick"] = ns(p.Nick)
 		f["ent/"+id+"/boss"] = ns(p.Boss)
-		f["ent/"+id+"/team"] = ns(p.Team)
+		if p.Team == nil {
+			f["ent/"+id+"/team"] = project.Nil
+		} else {
+			f["ent/"+id+"/team"] = tok.ModelT(*p.Team)
+		}
 		f["ent/"+id+"/sys"] = fmt.Sprint(p.IsSystem)
 		f["ent/"+id+"/roles"] = list(p.Roles)
 		if st, found, _ := S.Staff.FindById(tx, rid); found && st != nil && S.Staff.IsEntityPresent(tx, rid) {
@@ -64,37 +76,37 @@ func (r *Runner) apiFacts(tx *bbolt.Tx, model project.Facts) project.Facts {
 		}
 		if S.Cfg.ChildFeatures && S.Staff.IsEntityPresent(tx, rid) {
 			if l := S.Staff.GetRelatedEntitiesIdList(tx, rid, schema.FChiefOf); len(l) > 0 {
-				f["backChief/"+id] = list(l)
+				f["backChief/"+id] = listT(l)
 			}
 			if l := S.Staff.Squads.GetLinks(tx, rid); len(l) > 0 {
-				f["lnkST/"+id] = list(l)
+				f["lnkST/"+id] = listT(l)
 			}
 		}
 		if l := S.People.Links.GetLinks(tx, rid); len(l) > 0 {
-			f["lnkPT/"+id] = list(l)
+			f["lnkPT/"+id] = listT(l)
 		}
 		var viaCursor []string
 		for c := S.People.Links.IterateLinks(tx, []byte(rid)); c.IsValid(); c.Next() {
 			viaCursor = append(viaCursor, string(c.Current()))
 		}
-		if list(viaCursor) != list(S.People.Links.GetLinks(tx, rid)) {
-			f["lnkPT/"+id+"/!cursor"] = list(viaCursor)
+		if listT(viaCursor) != listT(S.People.Links.GetLinks(tx, rid)) {
+			f["lnkPT/"+id+"/!cursor"] = listT(viaCursor)
 		}
 		for _, rt := range tids {
 			a, b := S.People.Rc.GetLinkCounts(tx, []byte(rid), []byte(rt))
 			if a != nil {
-				f["rcPT/"+id+"/"+tok.Model(rt)] = fmt.Sprint(*a)
+				f["rcPT/"+id+"/"+tok.ModelT(rt)] = fmt.Sprint(*a)
 			}
 			if b != nil {
-				f["rcTP/"+tok.Model(rt)+"/"+id] = fmt.Sprint(*b)
+				f["rcTP/"+tok.ModelT(rt)+"/"+id] = fmt.Sprint(*b)
 			}
-			if S.People.Links.IsLinked(tx, []byte(rid), []byte(rt)) != strings.Contains(","+f["lnkPT/"+id]+",", ","+tok.Model(rt)+",") {
-				f["lnkPT/"+id+"/!isLinked/"+tok.Model(rt)] = "disagrees"
+			if S.People.Links.IsLinked(tx, []byte(rid), []byte(rt)) != strings.Contains(","+f["lnkPT/"+id]+",", ","+tok.ModelT(rt)+",") {
+				f["lnkPT/"+id+"/!isLinked/"+tok.ModelT(rt)] = "disagrees"
 			}
 		}
 	}
 	for _, rt := range tids {
-		t := tok.Model(rt)
+		t := tok.ModelT(rt)
 		f["tms/"+t] = "1"
 		if l := S.Teams.GetRelatedEntitiesIdList(tx, rt, schema.FTRep); len(l) > 0 {
 			f["backTeam/"+t] = list(l)
